@@ -157,4 +157,30 @@ theorem decodeAvp_attr (t : UInt16) (p r : Bytes) (a : AVP)
         | (obtain ⟨v, w, rfl⟩ := readAccm_shape h; rw [ht]; rfl)
         | (simp only [pure_apply, Out.ok.injEq] at h; rw [← h.1, ht]; rfl))
 
+/-- the payload decoders never produce a `Hidden` value (only the framing layer does) -/
+theorem decodeAvp_not_hidden (t : UInt16) (p r : Bytes) (a : AVP)
+    (h : (decodeAvp t : M Bytes DErr AVP) p = .ok a r) : a.isHidden = false := by
+  have hk : t.toNat = 0 ∨ t.toNat = 1 ∨ t.toNat = 2 ∨ t.toNat = 3 ∨ t.toNat = 4 ∨ t.toNat = 5 ∨ t.toNat = 6 ∨ t.toNat = 7 ∨ t.toNat = 8 ∨ t.toNat = 9 ∨ t.toNat = 10 ∨ t.toNat = 11 ∨ t.toNat = 12 ∨ t.toNat = 13 ∨ t.toNat = 14 ∨ t.toNat = 15 ∨ t.toNat = 16 ∨ t.toNat = 17 ∨ t.toNat = 18 ∨ t.toNat = 19 ∨ t.toNat = 21 ∨ t.toNat = 22 ∨ t.toNat = 23 ∨ t.toNat = 24 ∨ t.toNat = 25 ∨ t.toNat = 26 ∨ t.toNat = 27 ∨ t.toNat = 28 ∨ t.toNat = 29 ∨ t.toNat = 30 ∨ t.toNat = 31 ∨ t.toNat = 32 ∨ t.toNat = 33 ∨ t.toNat = 34 ∨ t.toNat = 35 ∨ t.toNat = 36 ∨ t.toNat = 37 ∨ t.toNat = 38 ∨ t.toNat = 39 ∨ (t.toNat = 20 ∨ 40 ≤ t.toNat) := by omega
+  rcases hk with hk | hk | hk | hk | hk | hk | hk | hk | hk | hk | hk | hk | hk | hk | hk | hk | hk | hk | hk | hk | hk | hk | hk | hk | hk | hk | hk | hk | hk | hk | hk | hk | hk | hk | hk | hk | hk | hk | hk | hk
+  all_goals first
+    | (rw [decodeAvp_unknown t hk] at h; simp at h; done)
+    | (unfold decodeAvp at h; simp only [hk] at h
+       first
+        | (obtain ⟨v, rfl⟩ := leafU16_shape h; rfl)
+        | (obtain ⟨v, rfl⟩ := leafU32_shape h; rfl)
+        | (obtain ⟨v, rfl⟩ := leafU64_shape h; rfl)
+        | (obtain ⟨v, rfl⟩ := leafB4_shape h; rfl)
+        | (obtain ⟨v, _, rfl⟩ := leafBytes_shape h; rfl)
+        | (obtain ⟨v, _, _, rfl⟩ := leafStr_shape h; rfl)
+        | (obtain ⟨v, rfl⟩ := readMessageType_shape h; rfl)
+        | (obtain ⟨v, rfl⟩ := readProxyAuthenType_shape h; rfl)
+        | (obtain ⟨v, w, rfl⟩ := readProtocolVersion_shape h; rfl)
+        | (obtain ⟨v, rfl⟩ := readProxyAuthenId_shape h; rfl)
+        | (obtain ⟨v, w, rfl⟩ := readChallengeResponse_shape h; rfl)
+        | (obtain ⟨v, w, rfl⟩ := readResultCode_shape h; rfl)
+        | (obtain ⟨v, w, x, rfl⟩ := readQ931_shape h; rfl)
+        | (obtain ⟨a1, a2, a3, a4, a5, a6, rfl⟩ := readCallErrors_shape h; rfl)
+        | (obtain ⟨v, w, rfl⟩ := readAccm_shape h; rfl)
+        | (simp only [pure_apply, Out.ok.injEq] at h; rw [← h.1]; rfl))
+
 end Rl2tp
